@@ -555,6 +555,38 @@ def rule_absence(E, R):
     R.floor(rule, "run-time closures of a compiled call", n, 4)
 
 
+def _keeps_present(S, call):
+    """a `filter_map(|arg| ..)` / `flat_map(|arg| ..)` over the arguments that lets every present value through: its closure
+    answers Some(value) for a present (`Ok`) argument; what it drops is absent (or of another kind, which typing excludes)"""
+    if call.get("k") != "MethodCall" or call["m"] not in ("filter_map", "flat_map") or not call.get("args"):
+        return False
+    clo = closure_of(call["args"][0])
+    if not clo:
+        return False
+    pRes = lambda v: _ty(v.node).startswith("core::result::Result<types::LhsValue")
+    somes = [x for x in S.closure_leaves(clo) if sem.ctor_head(x.node) == "Option::Some"]
+    others = [x for x in S.closure_leaves(clo) if sem.ctor_head(x.node) not in ("Option::Some", "Option::None")]
+    # `arg.ok()` as the whole closure is the flat_map idiom
+    if others and all(sem.is_method(x.node, "ok") is not None for x in others) and not somes:
+        return True
+    return bool(somes) and not others and all(sem.admitted_tuples(x.pc, [pRes], [["Result::Ok", "Result::Err"]]) == {("Result::Ok",)} for x in somes)
+
+
+def _for_each_over(S, pidx):
+    """[(site, closure)] of `<iterator rooted in parameter pidx>.for_each(closure)` whose chain neither drops nor reorders a
+    present element"""
+    out = []
+    for x in S.sites():
+        n = x.node
+        if n.get("k") == "MethodCall" and n["m"] == "for_each" and n.get("args") and closure_of(n["args"][0]):
+            if sem.param_index(S, n["recv"], x.frame, through_mut=True) != pidx:
+                continue
+            root, ch = chain(n["recv"])
+            if all(c["m"] in ORDER_PRESERVING or _keeps_present(S, c) for c in ch):
+                out.append((x, closure_of(n["args"][0])))
+    return out
+
+
 def rule_concat(E, R):
     rule = "R03-concat"
     fn = "functions::concat::concat_impl"
@@ -616,9 +648,13 @@ def rule_concat(E, R):
                     whole = True
             if whole and any(any(y is e.node for y in walk(ls.node)) for e in ext):
                 loop_ok = True
+        # the same walk written as `<rest>.for_each(|arg| .. extend ..)`
+        for fe in _for_each_over(Sa, 1):
+            if any(sem.within(e, fe[1]) for e in ext):
+                loop_ok = True
         R.check(bool(ext) and taken_ok and loop_ok, rule, fa, "every present array is appended with extend()",
                 "extend sites %d, next()-taken elements appended: %s, loop over the rest appends: %s" % (len(ext), taken_ok, loop_ok), ha["span"])
-        bad = [c["m"] for c in exprs(ha["body"], "MethodCall") if c["m"] in LOSSY - {"flat_map", "next"}]
+        bad = [c["m"] for c in exprs(ha["body"], "MethodCall") if c["m"] in LOSSY - {"flat_map", "next"} and not _keeps_present(Sa, c)]
         R.check(not bad, rule, fa, "no lossy adaptor on the argument iterator", str(bad), ha["span"])
         acc_ok = V is not None and V.expr is not None and sem.param_index(Sa, V.expr, V.frame) == 0 and \
             sem.provenance(Sa, V.expr, V.frame)[3] == ["into_vec"]
@@ -637,8 +673,11 @@ def rule_concat(E, R):
             if sem.param_index(Sb, it, ls.frame) == 1 and chain_verdict([{"m": m_} for m_ in ms], terminal_ok=()) == "ok" and \
                     any(any(y is e.node for y in walk(ls.node)) for e in ext):
                 in_loop = True
+        for fe in _for_each_over(Sb, 1):
+            if any(sem.within(e, fe[1]) for e in ext):
+                in_loop = True
         R.check(len(ext) == 1 and in_loop, rule, fb, "every present byte string is appended with extend_from_slice()", where=hb["span"])
-        bad = [c["m"] for c in exprs(hb["body"], "MethodCall") if c["m"] in LOSSY - {"next"}]
+        bad = [c["m"] for c in exprs(hb["body"], "MethodCall") if c["m"] in LOSSY - {"next"} and not _keeps_present(Sb, c)]
         R.check(not bad, rule, fb, "no lossy adaptor on the argument iterator", str(bad), hb["span"])
     else:
         R.cannot(rule, fb, "anchor not found")
